@@ -1,55 +1,50 @@
 import CollectionsC.Proofs.DequeIter
 import CollectionsC.Model.Queue
 import CollectionsC.Spec.QueueSpec
-/-! Helper lemmas for the queue adapter (`Model/Queue.lean`): constructor, destructor, and the three
-forwarding operations expressed on the queue's iteration view. -/
+/-! Helper lemmas for the queue adapter (`Model/Queue.lean`): constructor, destructor. -/
 namespace CC.Queue
 open CC CC.Deque
 
-/-- `cc_queue_new_conf`: either a queue over an empty deque (three blocks owned: queue header, deque
-header, buffer) or `CC_ERR_ALLOC`, no object and a balanced ledger — whichever of the three requests is
-refused -/
-theorem new_spec (confCap : Nat) (m : Mem) :
-    ((Queue.new confCap m).1 = .ok ∧ ∃ q, (Queue.new confCap m).2.1 = some q ∧ q.Inv ∧ q.abs = [] ∧
-      q.d.cap = upperPow2 confCap ∧ (Queue.new confCap m).2.2.live = m.live + 3 ∧
-      (Queue.new confCap m).2.2.fault = m.fault ∧ (m.sched = [] → (Queue.new confCap m).2.2.sched = [])) ∨
-    ((Queue.new confCap m).1 = .errAlloc ∧ (Queue.new confCap m).2.1 = none ∧
-      memSame (Queue.new confCap m).2.2 m) := by
-  cases h1 : m.alloc.1
+/-- `cc_queue_new_conf` (triple `t`; `cc_queue_new` uses the C library triple): either a queue over an
+empty deque — header and inner deque carry the same triple, three more blocks owned on it (queue header,
+deque header, buffer) — or `CC_ERR_ALLOC`, no object and a balanced ledger, whichever of the three requests
+is refused -/
+theorem new_spec (confCap : Nat) (t : Triple) (m : Mem) :
+    ((Queue.new confCap t m).1 = .ok ∧ ∃ q, (Queue.new confCap t m).2.1 = some q ∧ q.Inv ∧ q.abs = [] ∧
+      q.d.cap = upperPow2 confCap ∧ q.triple = t ∧ memRel t 3 (Queue.new confCap t m).2.2 m) ∨
+    ((Queue.new confCap t m).1 = .errAlloc ∧ (Queue.new confCap t m).2.1 = none ∧
+      memSame t (Queue.new confCap t m).2.2 m) := by
+  cases h1 : (m.allocT t).1
   · right
-    have : Queue.new confCap m = (.errAlloc, none, m.alloc.2) := by simp [Queue.new, h1]
+    have : Queue.new confCap t m = (.errAlloc, none, (m.allocT t).2) := by simp [Queue.new, h1]
     rw [this]
-    exact ⟨rfl, rfl, alloc_refused_same m h1⟩
-  · have e1 := Mem.alloc_fst_true m h1
-    rcases Deque.new_spec confCap m.alloc.2 with ⟨n1, d0, n2, n3, n4, n5, n6, n7, n8, n9⟩ | ⟨n1, n2, n3, _⟩
+    exact ⟨rfl, rfl, (allocT_refused t m h1).1⟩
+  · have e1 := allocT_ok t m h1
+    rcases Deque.new_spec confCap t (m.allocT t).2 with ⟨n1, d0, n2, n3, n4, n5, n6, n7, _⟩ | ⟨n1, n2, n3, _⟩
     · left
-      have hq : Queue.new confCap m = (.ok, some ⟨d0⟩, (Deque.new confCap m.alloc.2).2.2) := by
+      have hq : Queue.new confCap t m = (.ok, some ⟨d0, t⟩, (Deque.new confCap t (m.allocT t).2).2.2) := by
         simp [Queue.new, h1, n2]
       rw [hq]
-      refine ⟨rfl, _, rfl, n3, n4, n5, by simp only; omega, by simp only; rw [n7, e1.2.1], ?_⟩
-      intro hs
-      have : (Deque.new confCap m.alloc.2).2.2 = m.alloc.2.alloc.2.alloc.2 := by simp [Deque.new, n8, n9]
-      simp only
-      rw [this]
-      exact (alloc2_grow m.alloc.2 n8 n9).2.2 (alloc_sched_nil m hs).2
+      refine ⟨rfl, _, rfl, ⟨n3, n6⟩, n4, n5, rfl, ?_⟩
+      have := memRel_trans n7 e1
+      simpa using this
     · right
-      have hq : Queue.new confCap m = ((Deque.new confCap m.alloc.2).1, none, (Deque.new confCap m.alloc.2).2.2.free) := by
+      have hq : Queue.new confCap t m =
+          ((Deque.new confCap t (m.allocT t).2).1, none, (Deque.new confCap t (m.allocT t).2).2.2.freeT t) := by
         simp [Queue.new, h1, n2]
       rw [hq]
-      obtain ⟨f1, f2, f3, f4⟩ := free_of_pos (Deque.new confCap m.alloc.2).2.2 (by rw [n3.1]; omega)
-      refine ⟨n1, rfl, ⟨by simp only; rw [f1, n3.1]; omega, by simp only; rw [f2, n3.2.1, e1.2.1],
-        by simp only; rw [f3, n3.2.2.1, e1.2.2], ?_⟩⟩
-      intro hs
-      simp only
-      rw [f4]
-      exact n3.2.2.2 (alloc_sched_nil m hs).2
+      have h13 : memRel t 1 (Deque.new confCap t (m.allocT t).2).2.2 m := memRel_same n3 e1
+      have f := freeT_ok t (Deque.new confCap t (m.allocT t).2).2.2 (by have := h13.1; omega)
+      exact ⟨n1, rfl, memD_norm (k := 0) (j := 1) (by simpa using memD_trans f h13)⟩
 
-/-- `cc_queue_destroy` releases the three blocks -/
-theorem destroy_ledger (q : Queue) (m : Mem) (h : 3 ≤ m.live) :
-    (q.destroy m).live = m.live - 3 ∧ (q.destroy m).fault = m.fault := by
+/-- `cc_queue_destroy` releases the three blocks, each through the triple that allocated it -/
+theorem destroy_ledger (q : Queue) (m : Mem) (hi : q.Inv) (h : 3 ≤ liveOf q.triple m) :
+    memD q.triple 0 3 (q.destroy m) m := by
   unfold Queue.destroy
-  obtain ⟨d1, d2⟩ := Deque.destroy_ledger q.d m (by omega)
-  obtain ⟨f1, f2, _, _⟩ := free_of_pos (q.d.destroy m) (by omega)
-  exact ⟨by omega, by rw [f2, d2]⟩
+  have htr := hi.2
+  have d1 := Deque.destroy_ledger q.d m (by rw [htr]; omega)
+  rw [htr] at d1
+  have f := freeT_ok q.triple (q.d.destroy m) (by have := d1.1; omega)
+  simpa using memD_trans f d1
 
 end CC.Queue
